@@ -44,8 +44,31 @@ def run(ctx):
         p0 = x["problems"][0]
         sig = "%s:%s:%s" % (c["kind"], "registered" if (c["name"] if c["kind"] == "tag" else c["vname"]) else "unregistered", p0.split(":")[0] + ":" + (p0.split(":")[1] if ":" in p0 else ""))
         ctx.violation(sig, "%s tag=0x%06X name=%r value=%s vname=%r: %s" % (c["kind"], c["tag"], c["name"], c["value"], c["vname"], x["problems"][:3]), x)
+    # the registry while it changes: RegistryDyn.tla histories (registrations of vendor extensions interleaved with lookups and writes)
+    deep = "" if ctx.quick else "_deep"
+    ctx.tlc("RegistryDyn", "RegistryDyn_mc%s.cfg" % deep, workers=4)
+    gd = ctx.tlc("RegistryDyn", "RegistryDyn_gen%s.cfg" % deep, workers=1, count=False)
+    hist = gd.printed("CASE")
+    if len(hist) < 8000:
+        raise vlib.Inconclusive("too few registry histories: %d" % len(hist))
+    hpath, dpath = os.path.join(ctx.work, "dyn.ndjson"), os.path.join(ctx.work, "dyn.out.ndjson")
+    vlib.write_ndjson(hpath, hist)
+    rc, out = ctx.run_driver(binary, test_run="^TestDynamic$", env={"VERIF_DYN_CASES": hpath, "VERIF_OUT": dpath})
+    if rc != 0 or not os.path.exists(dpath):
+        raise vlib.Inconclusive("registry driver (dynamic) failed rc=%s\n%s" % (rc, out[-3000:]))
+    dres = vlib.read_ndjson(dpath)
+    dsum = [x for x in dres if x.get("summary")]
+    if not dsum or dsum[0]["histories"] != len(hist):
+        raise vlib.Inconclusive("driver replayed %s, TLC generated %d histories" % (dsum, len(hist)))
+    for x in dres:
+        if x.get("summary"):
+            continue
+        p0 = x["problems"][0]
+        ctx.violation("dynamic:%s" % p0.split(":")[0], "enumeration %s, history %s: %s" % (x["tag"], [(s["op"], s["slot"]) for s in x["h"]], x["problems"][:3]), x)
     ctx.finish("model_checking", {
-        "evaluations": len(cases),
+        "evaluations": len(cases) + dsum[0]["steps"],
+        "dynamic_histories": len(hist),
+        "dynamic_rule": "RegistryDyn.tla: every history of 4 (quick) / 5 (thorough) steps over {register extension value 1|2, look it up by name / by value, look up a pinned entry, write it in XML and JSON and read it back}; TLC checks that each observation is a function of the registrations before it; each history is replayed on the real process-global registry (State, CryptographicAlgorithm, ObjectType) with fresh vendor values",
         "distinct_nontrivial": len([c for c in cases if c["kind"] != "tag" or c["name"]]),
         "rule": "the live registry (extracted through TagString / EnumValuesByTag / AppendBitmaskString) must equal the pinned KMIP 1.0-1.4 registry and satisfy Registry.tla's bijection and structure invariants (checked by TLC); then every pinned tag (292), every enumeration value (601 in 47 enumerations), every mask flag (22) and unregistered numbers around them (tag + 0x200 / 0x400 / 0x1000 / 0x10000, values beyond the maximum) is replayed through TagString, EnumByName / EnumName, BitmaskByStr and XML / JSON / binary / text single-item round trips, reading back the number that was written and reading foreign documents written by name; non-trivial = registered entries",
         "exhaustive": True, "samples": cases[:2] + cases[-2:],
